@@ -25,13 +25,13 @@ def _counters(triples):
 
 CFG = {
     "level": "proof",
-    "level_text": "Lean theorems over the value-level functions of the jq model (Props/C25.lean): cross-kind order, "
-                  "lexicographic arrays, sort = permutation (+ ordered for any total transitive comparator), unique = "
-                  "sublist of the sorted permutation, object field read/write laws, one-step setpath/getpath/frame laws, "
-                  "to_entries|from_entries on duplicate-free objects; tie: the identities (incl. the ones not proved: "
-                  "tojson|fromjson, tostream|fromstream, @base64|@base64d, multi-step paths, order totality) are "
-                  "evaluated by both Rust evaluators on generated values and every path, with an in-process verdict, "
-                  "and diffed with the model's run",
+    "level_text": "Lean theorems over the value-level functions of the jq model (Props/C25.lean, Proof/JqOrder, JqPaths, "
+                  "JqCodec): jq's order is a total preorder on duplicate-free values for every lawful number carrier; sort = "
+                  "ordered permutation; unique = strictly increasing set of representatives; getpath_defined / "
+                  "setpath_getpath_id / getpath_setpath / setpath_frame for every p in paths v; to_entries|from_entries on "
+                  "duplicate-free objects; @base64|@base64d and @uri|decode on all byte strings. Not proved (covered by the "
+                  "tie only): tojson|fromjson, tostream|fromstream, cmp=eq iff ==. Tie: all identities are evaluated by both "
+                  "Rust evaluators on generated values and every path, with an in-process verdict, and diffed with the model",
     "level_note": "numbers enter through an abstract carrier; `_partial` theorems name what is missing; @uri decode is "
                   "not checked (`@urid` is a succinctly extension without jq oracle)",
     "technique": "Lean 4 proof over the model + differential correspondence with in-process identity oracle",
